@@ -929,3 +929,156 @@ def poisson_obligation_source():
             "`plogp`: `if 0 < p`) is the source's: strict comparisons, maxima in all three places, those two tolerances -/\n"
             'example : Generated.massRule = ("max", "gt", "1e-16") ∧ Generated.smallRule = ("gt", "1e-75") ∧\n'
             '    Generated.smallUpdate = ("ge", "max", "max") ∧ Generated.mask = "gt" := by decide\n')
+
+
+# ------------------------------------------------------------------ C11 KSG formulas of the two kNN estimators regenerated as Lean terms
+
+def _knn_formula(fn, blocks):
+    """symbolic evaluation of a kNN estimator body (for the CMI function: the `else` branch of `if Z is None`).
+    `blocks`: the per-sample neighbour-count blocks in the order of the tuple components of `c`.
+    Returns the Lean term of the returned value in ψ, k, N and the per-sample counts `c`."""
+    comp = {1: ["c.1"], 2: ["c.1", "c.2"], 3: ["c.1", "c.2.1", "c.2.2"]}[len(blocks)]
+    env = {}          # name -> ("joint",) | ("eps",) | ("dist", blockkey) | ("cnt", component) | ("N",) | ("scal", term) | ("elem", term)
+
+    def stack_key(node):
+        """np.column_stack((A, B, ..)) or a bare parameter name -> tuple of parameter names"""
+        if isinstance(node, ast.Name) and node.id in ("X", "Y", "Z"):
+            return (node.id,)
+        if isinstance(node, ast.Name) and node.id in env and env[node.id][0] == "stack":
+            return env[node.id][1]
+        if (isinstance(node, ast.Call) and ast.unparse(node.func) in ("np.column_stack", "np.hstack") and len(node.args) == 1
+                and isinstance(node.args[0], (ast.Tuple, ast.List)) and all(isinstance(e, ast.Name) and e.id in ("X", "Y", "Z") for e in node.args[0].elts)):
+            return tuple(e.id for e in node.args[0].elts)
+        return None
+
+    def is_cdist(node, allow_p=False):
+        if not (isinstance(node, ast.Call) and ast.unparse(node.func) == "cdist" and len(node.args) == 2):
+            return None
+        kws = {k.arg: ast.unparse(k.value) for k in node.keywords}
+        if kws.get("metric") != "metric" or (set(kws) - {"metric"} and not (allow_p and set(kws) == {"metric", "p"})):
+            return None
+        a, b = stack_key(node.args[0]), stack_key(node.args[1])
+        return a if a is not None and a == b else None
+
+    def ev(node):
+        if isinstance(node, ast.Name):
+            if node.id == "k":
+                return ("nat", "k")
+            if node.id in env:
+                return env[node.id]
+            raise Untranslatable(f"unknown name {node.id}")
+        if isinstance(node, ast.Constant) and isinstance(node.value, int) and not isinstance(node.value, bool):
+            return ("natlit", str(node.value))
+        if isinstance(node, ast.UnaryOp) and isinstance(node.op, ast.USub):
+            k_, t = ev(node.operand)
+            if k_ not in ("scal", "elem"):
+                raise Untranslatable("negation")
+            return (k_, f"(-{t})")
+        if isinstance(node, ast.BinOp) and isinstance(node.op, (ast.Add, ast.Sub)):
+            (ka, a), (kb, b) = ev(node.left), ev(node.right)
+            if ka == "cnt" and kb == "natlit" and isinstance(node.op, ast.Add):
+                return ("cntnat", f"({a} + {b})")
+            if ka in ("scal", "elem") and kb in ("scal", "elem"):
+                return ("elem" if "elem" in (ka, kb) else "scal", f"({a} {'+' if isinstance(node.op, ast.Add) else '-'} {b})")
+            raise Untranslatable(f"arithmetic {ast.unparse(node)[:50]}")
+        if isinstance(node, ast.Call) and ast.unparse(node.func) in ("digamma", "scipy.special.digamma", "special.digamma") and len(node.args) == 1 and not node.keywords:
+            k_, t = ev(node.args[0])
+            if k_ == "nat":
+                return ("scal", f"ψ {t}")
+            if k_ == "N":
+                return ("scal", "ψ N")
+            if k_ == "cntnat":
+                return ("elem", f"ψ {t}")
+            raise Untranslatable(f"digamma of {ast.unparse(node.args[0])}")
+        if isinstance(node, ast.Call) and ast.unparse(node.func) == "np.mean" and len(node.args) == 1 and not node.keywords:
+            k_, t = ev(node.args[0])
+            if k_ != "elem":
+                raise Untranslatable("np.mean of a non-array")
+            return ("scal", f"CE.Knn.mean (cs.map (fun c => {t}))")
+        raise Untranslatable(f"expression {ast.unparse(node)[:60]}")
+
+    for st in fn:
+        if isinstance(st, ast.Expr) and isinstance(st.value, ast.Constant):
+            continue
+        if isinstance(st, ast.Return):
+            k_, t = ev(st.value)
+            if k_ != "scal":
+                raise Untranslatable("returned value")
+            return t
+        if isinstance(st, ast.If) and ast.unparse(st.test) == "metric == 'minkowski'" and len(st.body) == 1 and len(st.orelse) == 1:
+            # the radius under the (undocumented) minkowski default and under the named metrics: both branches must be the same construction
+            a, b = st.body[0], st.orelse[0]
+            if not (isinstance(a, ast.Assign) and isinstance(b, ast.Assign) and ast.unparse(a.targets[0]) == ast.unparse(b.targets[0])):
+                raise Untranslatable("metric branch")
+            sts = [b]
+        else:
+            sts = [st]
+        for st2 in sts:
+            if not (isinstance(st2, ast.Assign) and len(st2.targets) == 1 and isinstance(st2.targets[0], ast.Name)):
+                raise Untranslatable(f"statement {ast.unparse(st2)[:60]}")
+            tgt, val = st2.targets[0].id, st2.value
+            sk = stack_key(val)
+            if sk is not None and not isinstance(val, ast.Name):
+                env[tgt] = ("stack", sk); continue
+            if ast.unparse(val) in ("X.shape[0]", "len(X)", "JS.shape[0]"):
+                env[tgt] = ("N", "N"); continue
+            # radius: np.sort(cdist(JS, JS, metric=metric), axis=1)[:, k]
+            if (isinstance(val, ast.Subscript) and ast.unparse(val.slice) == "(slice(None, None, None), k)" or (isinstance(val, ast.Subscript) and ast.unparse(val).endswith("[:, k]"))):
+                inner = val.value
+                if (isinstance(inner, ast.Call) and ast.unparse(inner.func) == "np.sort" and len(inner.args) == 1 and {k.arg: ast.unparse(k.value) for k in inner.keywords} == {"axis": "1"}
+                        and is_cdist(inner.args[0], allow_p=True) == tuple(b_ for blk in [("X", "Y", "Z")[:2] + (("Z",) if len(blocks) == 3 else ())] for b_ in blk)):
+                    env[tgt] = ("eps", "eps"); continue
+                raise Untranslatable("radius is not np.sort(cdist(JOINT, JOINT, metric=metric), axis=1)[:, k]")
+            cd = is_cdist(val)
+            if cd is not None:
+                env[tgt] = ("dist", cd); continue
+            if isinstance(val, ast.Name) and val.id in env:
+                env[tgt] = env[val.id]; continue
+            # count: np.sum(D < eps[:, None], axis=1) - 1
+            if (isinstance(val, ast.BinOp) and isinstance(val.op, ast.Sub) and isinstance(val.right, ast.Constant) and val.right.value == 1
+                    and isinstance(val.left, ast.Call) and ast.unparse(val.left.func) == "np.sum" and len(val.left.args) == 1
+                    and {k.arg: ast.unparse(k.value) for k in val.left.keywords} == {"axis": "1"}):
+                c = val.left.args[0]
+                if (isinstance(c, ast.Compare) and len(c.ops) == 1 and isinstance(c.ops[0], ast.Lt) and isinstance(c.left, ast.Name) and env.get(c.left.id, (None,))[0] == "dist"
+                        and isinstance(c.comparators[0], ast.Subscript) and isinstance(c.comparators[0].value, ast.Name) and env.get(c.comparators[0].value.id, (None,))[0] == "eps"
+                        and ast.unparse(c.comparators[0]).endswith("[:, None]")):
+                    blk = env[c.left.id][1]
+                    if blk not in blocks:
+                        raise Untranslatable(f"count over block {blk}")
+                    env[tgt] = ("cnt", comp[blocks.index(blk)]); continue
+                raise Untranslatable("count is not np.sum(D_block < eps[:, None], axis=1) - 1")
+            env[tgt] = ev(val)
+    raise Untranslatable("no return")
+
+
+def knn_obligation_source():
+    """Both KSG estimators: radius construction, strict counts minus one and the digamma formula are read off the CURRENT source; the
+    formulas become Lean terms in an ARBITRARY ψ and must equal the model's `knnMIψ` / `knnCMIψ` for all ψ, metrics, k and samples."""
+    mi = _funcs(_parse(MI)).get("knn_mutual_information")
+    cmi = _funcs(_parse(CMI)).get("knn_conditional_mutual_information")
+    if mi is None or cmi is None:
+        raise Untranslatable("kNN estimators not found")
+    for f_, want in ((mi, ["X", "Y", "metric", "k"]), (cmi, ["X", "Y", "Z", "metric", "k"])):
+        if [a.arg for a in f_.args.args] != want:
+            raise Untranslatable(f"signature {[a.arg for a in f_.args.args]}")
+    t_mi = _knn_formula(mi.body, [("X",), ("Y",)])
+    body = [st for st in cmi.body if not (isinstance(st, ast.Expr) and isinstance(st.value, ast.Constant))]
+    if not (len(body) == 1 and isinstance(body[0], ast.If) and ast.unparse(body[0].test) == "Z is None" and len(body[0].body) == 1 and isinstance(body[0].body[0], ast.Return)
+            and ast.unparse(body[0].body[0].value) in ("knn_mutual_information(X, Y, metric=metric, k=k)", "knn_mutual_information(X, Y, metric, k)")):
+        raise Untranslatable("conditional estimator is not `if Z is None: return knn_mutual_information(X, Y, metric=metric, k=k) else: ...`")
+    t_cmi = _knn_formula(body[0].orelse, [("X", "Z"), ("Y", "Z"), ("Z",)])
+    return ("import CEModel.Knn\nimport Mathlib.Tactic.Ring\nimport Mathlib.Algebra.Order.Field.Rat\n/-! GENERATED from /repo by harness/gen_tables.py -- do not edit. -/\n"
+            f"def Generated.knnMI (ψ : Nat → Rat) (k N : Nat) (cs : List (Nat × Nat)) : Rat :=\n  {t_mi}\n"
+            f"def Generated.knnCMI (ψ : Nat → Rat) (k : Nat) (cs : List (Nat × Nat × Nat)) : Rat :=\n  {t_cmi}\n"
+            "open CE.Knn in\n"
+            "example : ∀ (ψ : Nat → Rat) (m : Metric) (k : Nat) (X Y : Sample), knnMIψ ψ m k X Y = Generated.knnMI ψ k X.length\n"
+            "    ((List.zipWith (fun (x : Pt) (y : Pt) => (x, y)) X Y).map (fun xy =>\n"
+            "      (countIn m X xy.1 (radius m k (hcat X Y) (xy.1 ++ xy.2)), countIn m Y xy.2 (radius m k (hcat X Y) (xy.1 ++ xy.2))))) := by\n"
+            "  intro ψ m k X Y\n  first\n    | rfl\n    | (simp only [knnMIψ, Generated.knnMI, List.map_map, Function.comp_def]; done)\n    | (simp only [knnMIψ, Generated.knnMI, List.map_map, Function.comp_def]; first | rfl | ring1)\n"
+            "open CE.Knn in\n"
+            "example : ∀ (ψ : Nat → Rat) (m : Metric) (k : Nat) (X Y Z : Sample), knnCMIψ ψ m k X Y Z = Generated.knnCMI ψ k\n"
+            "    ((zip3 X Y Z).map (fun t =>\n"
+            "      (countIn m (hcat X Z) (t.1 ++ t.2.2) (radius m k (hcat (hcat X Y) Z) (t.1 ++ t.2.1 ++ t.2.2)),\n"
+            "       countIn m (hcat Y Z) (t.2.1 ++ t.2.2) (radius m k (hcat (hcat X Y) Z) (t.1 ++ t.2.1 ++ t.2.2)),\n"
+            "       countIn m Z t.2.2 (radius m k (hcat (hcat X Y) Z) (t.1 ++ t.2.1 ++ t.2.2))))) := by\n"
+            "  intro ψ m k X Y Z\n  first\n    | rfl\n    | (simp only [knnCMIψ, Generated.knnCMI, List.map_map, Function.comp_def]; done)\n    | (simp only [knnCMIψ, Generated.knnCMI, List.map_map, Function.comp_def]; first | rfl | ring1)\n")
